@@ -93,7 +93,6 @@ func run(c *hc.Ctx) {
 			for i := 0; i < n; i++ {
 				v := hc.P2{X: float64(c.Intn(9)), Y: float64(c.Intn(3) - 1)}
 				if i == 0 {
-					v.Y = float64(2*c.Intn(2) - 1) // start vertex off the middle row (see coincidence())
 					P.MoveTo(v.X, v.Y)
 				} else {
 					P.LineTo(v.X, v.Y)
@@ -297,7 +296,10 @@ func run(c *hc.Ctx) {
 					break
 				}
 			}
-			if !strings.Contains(osfx, "+level-with-endpoint") && tangentExtremum(pt, segs) {
+			if !strings.Contains(osfx, "+level-with-endpoint") && cubicDiscriminantSnapped(pt, segs) {
+				osfx = "+cubic-discriminant-snapped" + osfx
+				c.Count("curved-query-cubic-discriminant-snapped")
+			} else if !strings.Contains(osfx, "+level-with-endpoint") && tangentExtremum(pt, segs) {
 				osfx = "+tangent-at-extremum" + osfx
 				c.Count("curved-query-tangent-at-extremum")
 			}
@@ -324,6 +326,10 @@ func run(c *hc.Ctx) {
 		}
 		// CCW on simple contours: sign of the area of the flattening (only convex-ish single arcs/ellipses)
 	}
+
+	// 3b. rays exactly tangent to the inside of a curved segment (regression class of b6be64d): domes
+	//     whose Bézier has its y-extremum at t = 1/2 at an exactly representable height
+	runTangent(c)
 
 	// 4a. Filling with an enclosing contour inside the inner contour's (loose) FastBounds box
 	runHugging(c)
@@ -454,7 +460,7 @@ func flatClass(p hc.P2, cs [][]hc.P2, open bool) string {
 // intersection list, which windings() assumes).
 func coincidentHits(p hc.P2, cs [][]hc.P2) bool { return coincidence(p, cs) == 2 }
 
-// coincidence: 0 = no vertex on the ray is touched by anything else; 2 = such a coincidence happens
+// coincidence (regression class since 847036a): 0 = no vertex on the ray is touched by anything else; 2 = such a coincidence happens
 // at the x of a subpath's START vertex lying on the ray (its two end-point hits are the first and
 // the last hit of the subpath in path order, so every other hit with the same x sorts between them:
 // the recorded defect); 1 = coincidences only elsewhere (there the stable sort keeps each vertex's
@@ -650,6 +656,123 @@ func tangentExtremum(p hc.P2, segs []hc.Seg) bool {
 				}
 			}
 			prev, cur = cur, next
+		}
+	}
+	return false
+}
+
+func runTangent(c *hc.Ctx) {
+	for it := 0; it < c.N/3+1; it++ {
+		x0, y0 := float64(c.Intn(9)-4), float64(c.Intn(9)-4)
+		w := float64(2 + c.Intn(6))
+		k := float64(1+c.Intn(4)) * float64(2*c.Intn(2)-1) // height of the dome, up or down
+		P := &canvas.Path{}
+		P.MoveTo(x0, y0)
+		if c.Bool() {
+			P.QuadTo(x0+w*c.Range(0.2, 0.8), y0+2*k, x0+w, y0) // extremum y0+k at t = 1/2
+		} else {
+			P.CubeTo(x0+w*c.Range(0, 0.4), y0+4*k, x0+w*c.Range(0.6, 1), y0+4*k, x0+w, y0)
+		}
+		d := float64(1 + c.Intn(3))
+		if k > 0 {
+			d = -d
+		}
+		P.LineTo(x0+w, y0+d)
+		P.LineTo(x0, y0+d)
+		P.Close()
+		if c.Bool() {
+			P = P.Reverse()
+		}
+		segs, err := hc.Decode(P.Data())
+		if err != nil {
+			continue
+		}
+		var ct []hc.P2
+		for _, sg := range segs {
+			switch sg.Kind {
+			case 'M':
+				ct = append(ct, sg.End)
+			case 'L', 'Z':
+				ct = append(ct, sg.End)
+			default:
+				ct = append(ct, hc.SampleSeg(sg, 400)[1:]...)
+			}
+		}
+		if len(ct) > 1 && ct[0] == ct[len(ct)-1] {
+			ct = ct[:len(ct)-1]
+		}
+		cs := [][]hc.P2{ct}
+		// the extremum of the curved segment
+		var ext hc.P2
+		found := false
+		for _, sg := range segs {
+			if sg.Kind == 'Q' || sg.Kind == 'C' {
+				ext = sg.At(0.5)
+				found = true
+			}
+		}
+		if !found {
+			continue
+		}
+		for _, dx := range []float64{c.Range(0.5, 3), w + c.Range(0.5, 3)} {
+			pt := hc.P2{X: ext.X - dx, Y: ext.Y}
+			if hc.DistToContours(pt, cs) < 1e-3 {
+				continue
+			}
+			sfx := ""
+			if tangentExtremum(pt, segs) {
+				sfx = "+tangent-at-extremum"
+				c.Count("curved-query-tangent-at-extremum")
+			} else {
+				c.Count("tangent-dome: extremum not exact")
+			}
+			c.Evals++
+			var w2 int
+			var bd bool
+			if msg := hc.Try(func() { w2, bd = P.Windings(pt.X, pt.Y) }); msg != "" {
+				c.Fail("panic:Windings-curved"+sfx, "Windings panicked: "+firstLine(msg), map[string]any{"P": P.String(), "point": []float64{pt.X, pt.Y}})
+				continue
+			}
+			wf := hc.WnFloat(pt, cs)
+			if bd {
+				c.Fail("boundary-reported-off-boundary-curved"+sfx, fmt.Sprintf("point (%v,%v) is off the path but reported as boundary", pt.X, pt.Y), map[string]any{"P": P.String(), "point": []float64{pt.X, pt.Y}})
+			} else if w2 != wf {
+				c.Fail("windings-curved"+sfx, fmt.Sprintf("Windings(%v,%v)=%d but the winding number of a 400-step flattening is %d (ray tangent to the dome)", pt.X, pt.Y, w2, wf), map[string]any{"P": P.String(), "point": []float64{pt.X, pt.Y}})
+			}
+			c.Count("tangent-dome query")
+		}
+		c.Distinct(P.String())
+	}
+}
+
+// cubicDiscriminantSnapped: for some cubic segment the equation y(t) = p.Y has a depressed form
+// t^3 + c1 t + c0 whose discriminant -(4 c1^3 + 27 c0^2) is below Epsilon in absolute terms but not
+// relative to its two terms: solveCubicFormula then takes the double-root branch although the roots
+// are apart (cause predicate of C06-cubic-close-roots-snapped, decided from the input alone).
+func cubicDiscriminantSnapped(p hc.P2, segs []hc.Seg) bool {
+	const eps = 1e-10
+	for _, sg := range segs {
+		if sg.Kind != 'C' {
+			continue
+		}
+		y0, y1, y2, y3 := sg.P0.Y, sg.P1.Y, sg.P2.Y, sg.End.Y
+		a := y3 - y0 + 3*y1 - 3*y2
+		b := 3*y0 - 6*y1 + 3*y2
+		cc := 3*y1 - 3*y0
+		d := y0 - p.Y
+		if math.Abs(a) < 1e-9 {
+			continue
+		}
+		b, cc, d = b/a, cc/a, d/a
+		bt := b / 3
+		c0 := d - bt*(cc-2*bt*bt)
+		c1 := cc - b*bt
+		if math.Abs(c0) <= eps || math.Abs(c1) <= eps {
+			continue
+		}
+		delta := -(4*c1*c1*c1 + 27*c0*c0)
+		if math.Abs(delta) <= eps && math.Abs(delta) > eps*(4*math.Abs(c1*c1*c1)+27*c0*c0) {
+			return true
 		}
 	}
 	return false
